@@ -24,6 +24,7 @@ image and every per-unit function — and that (b) with row index, (d), (e) are 
 -/
 import DdsModel.Split
 import DdsModel.EncLen
+import DdsModel.FormatTables
 namespace Dds
 namespace EncRows
 
@@ -184,6 +185,93 @@ def encDitherFrom (step : σ → List α → List β × σ) : σ → List (List 
 /-- `s0` = the zeroed error buffer every call of the encoder starts with -/
 def encDither (step : σ → List α → List β × σ) (s0 : σ) (img : List (List α)) : List β :=
   encDitherFrom step s0 img
+
+/-! ## which family runs for which encoder of the table
+
+`FormatTables.lean` (C19, tied to the library on every run) pins for every format the encoder list
+(`encoderSet`: constructor of the set, kind of every body), `pick_encoder` (`EncSet.pick`) and the
+pixel layout (`Format.row .px`, block width / height).  `Split.lean` pins `encoding_support()` by
+format NAME (tied by C14's `sup` cases).  `Runs` says of which data-flow family the body of an
+encoder of the table is an instance — by reading the encoder lists:
+
+* uncompressed.rs (layout `fixed`): `Encoder::copy` → `copy_directly`; `color_convert!` and the
+  `Encoder::new(ColorFormatSet::U8, ..)` bodies → `uncompressed_untyped`; `universal!` →
+  `uncompressed_universal` — kind `plain`, family (a); `universal_dither!` →
+  `uncompressed_universal_dither` — kind `fsDither`, family (e)
+* sub_sampled.rs (layout `block _ bw 1`): `universal_subsample!` — kind `plain`, family (b) with a
+  per-block function that ignores the row index; `universal_subsample_dither!` — kind `bayer`,
+  family (b) with the row index
+* bc.rs (set constructor `new_bc`, layout `block _ 4 4`): `block_4x4` = `block_universal::<4, 4, ..>`
+  — kind `bc _`, family (c) with the layout's block size
+* bi_planar.rs (set constructor `new_bi_planar`): `bi_planar_universal` — family (d)
+-/
+
+open C19 in
+inductive Runs {α β : Type} (w : Nat) :
+    SetCtor → EncKind → PixelInfo → (List (List α) → List β) → Prop where
+  | uncompressed (bpp : Nat) (p : Path) (encPx : α → List β) (bufPx : Nat) (hb : 0 < bufPx) :
+      Runs w .plain .plain (.fixed bpp) (encUncompressed p encPx bufPx)
+  | subsample (bytes bw chunkPx : Nat) (f : List α → List β) :
+      Runs w .plain .plain (.block bytes bw 1) (encSubsample bw chunkPx (fun _ => f))
+  | bayer (bytes bw chunkPx : Nat) (f : Nat → List α → List β) :
+      Runs w .plain .bayer (.block bytes bw 1) (encSubsample bw chunkPx f)
+  | fsDither (bpp : Nat) (σ : Type) (step : σ → List α → List β × σ) (s0 : σ) :
+      Runs w .plain .fsDither (.fixed bpp) (encDither step s0)
+  | block (bytes bw bh : Nat) (wiring : BcWiring) (encBlock : List α → Nat → List β) :
+      Runs w .bc (.bc wiring) (.block bytes bw bh) (encBlocks bw bh w encBlock)
+  | biPlanar (p1 p2 sx sy : Nat) (kind : EncKind) (encPair : List (List α) → List β × List β) :
+      Runs w .biPlanar kind (.biPlanar p1 p2 sx sy) (encBiPlanar encPair)
+
+/-- `Dithering::new(color, alpha)` (C19's pair) as the enum of `Split.lean` -/
+def ditheringOf (d : C19.Dithering) : Dithering :=
+  match d.color, d.alpha with
+  | false, false => .none
+  | true, true => .colorAndAlpha
+  | true, false => .color
+  | false, true => .alpha
+
+/-- the two pinned tables agree on everything `get_fragment_height` reads -/
+def tablesAgree (sup : Support) (s : C19.Support) : Bool :=
+  sup.dithering == ditheringOf s.dithering && sup.splitHeight == s.splitHeight &&
+    sup.localDithering == s.localDithering
+
+/-- the advertised split height against the set constructor and the row-group height of the
+layout: a `NonZeroU8` multiple of the block height; none for bi-planar formats -/
+def splitOk (ctor : C19.SetCtor) (px : PixelInfo) (sh : Option Nat) : Bool :=
+  match ctor, px, sh with
+  | .plain, .fixed _, some sh => decide (0 < sh ∧ sh < U8)
+  | .plain, .block _ _ bh, some sh => decide (0 < sh ∧ sh < U8) && bh == 1
+  | .bc, .block _ _ bh, some sh => decide (0 < sh ∧ sh < U8) && decide (0 < bh) && sh % bh == 0
+  | .biPlanar, .biPlanar _ _ _ _, none => true
+  | _, _, _ => false
+
+/-- a body with state across rows (`fsDither`) or reading the row index (`bayer`) is picked only
+when `get_fragment_height` refuses to split because global dithering applies -/
+def kindOk (kind : C19.EncKind) (ctor : C19.SetCtor) (sup : Support) (d : Dithering) : Bool :=
+  match kind, ctor with
+  | .plain, .plain => true
+  | _, .biPlanar => true
+  | .bc _, .bc => true
+  | .fsDither, .plain => !sup.localDithering && decide (d.intersect sup.dithering ≠ .none)
+  | .bayer, .plain => !sup.localDithering && decide (d.intersect sup.dithering ≠ .none)
+  | _, _ => false
+
+/-- everything `fragmentwise_eq_whole_all_families` needs from the tables, for one format, input
+colour and dithering option; `Theorems/C14.lean` evaluates it on all 73 × 12 × 4 combinations. -/
+def familyCheck (f : C19.Format) (c : C19.ColorFormat) (d : C19.Dithering) : Bool :=
+  match C19.encoderSet f with
+  | none => supportOf f.name == some none
+  | some s =>
+    match supportOf f.name with
+    | some (some sup) =>
+      tablesAgree sup s.support && splitOk s.ctor f.row.px sup.splitHeight &&
+        (match s.pick c d with
+         | none => false
+         | some i =>
+           match s.encs[i]? with
+           | none => false
+           | some e => kindOk e.kind s.ctor sup (ditheringOf d))
+    | _ => false
 
 end EncRows
 end Dds
